@@ -955,6 +955,9 @@ func (g *gen) request() request {
 	case x < 40:
 		return request{Op: "GetByKeys", Sw: g.sw(), Keys: g.keys(3)}
 	case x < 48:
+		if r.Chance(12) {
+			return request{Op: "Delete", Sw: g.sw(), Keys: []int64{1, 2, 3, 4}} // empties the swamp
+		}
 		return request{Op: "Delete", Sw: g.sw(), Keys: g.keys(3)}
 	case x < 52:
 		q := request{Op: "Count", Sws: []int64{g.sw()}}
@@ -969,6 +972,9 @@ func (g *gen) request() request {
 	case x < 62:
 		return request{Op: "AreKeysExist", Sw: g.sw(), Keys: g.keys(4)}
 	case x < 66:
+		if r.Chance(15) {
+			return request{Op: "ShiftByKeys", Sw: g.sw(), Keys: []int64{4, 3, 2, 1}} // empties the swamp
+		}
 		return request{Op: "ShiftByKeys", Sw: g.sw(), Keys: g.keys(3)}
 	case x < 80: // Inc
 		k := g.key()
@@ -1050,6 +1056,27 @@ func (g *gen) request() request {
 	}
 }
 
+// flushSwamp forces the write-interval flush of a persistent swamp (what the 1 s write ticker does),
+// so that later requests of the history meet records that are already on disk: the delete path, the
+// waiting-for-writer list and the auto-destroy decision differ for such records. Not a request of
+// the API: it has no counterpart in the model (a flush must be unobservable through the API).
+func flushSwamp(s *rig.Server, name string) {
+	if name == "" {
+		return
+	}
+	h := s.Zeus.GetHydra()
+	if ex, err := h.IsExistSwamp(1, rig.Name(name)); err != nil || !ex {
+		return
+	}
+	sw, err := h.SummonSwamp(ctx, 1, rig.Name(name))
+	if err != nil || sw == nil {
+		return
+	}
+	sw.BeginVigil()
+	sw.WriteTreasuresToFilesystem()
+	sw.CeaseVigil()
+}
+
 // ---------------------------------------------------------------- running a history
 
 type outcomeT struct {
@@ -1063,7 +1090,8 @@ type outcomeT struct {
 var hungMu sync.Mutex
 var hung int
 
-func runHistory(s *rig.Server, idx int, persistent bool, reqs []request, watchdog time.Duration) outcomeT {
+func runHistory(s *rig.Server, idx int, persistent bool, flushPct int, reqs []request, watchdog time.Duration) outcomeT {
+	frng := common.NewRng(uint64(idx), "C06-flush")
 	pfx := "c06m"
 	if persistent {
 		pfx = "c06p"
@@ -1073,6 +1101,27 @@ func runHistory(s *rig.Server, idx int, persistent bool, reqs []request, watchdo
 	var human []string
 	out := outcomeT{ops: map[string]int{}}
 	writes := 0
+	// every history ends with the existence and the contents of both swamps, asked through the API like
+	// any other request, so that the last state change of the history is also judged by the oracle
+	// (only for the swamps the history mentions)
+	{
+		used := map[int64]bool{}
+		for _, q := range reqs {
+			used[q.Sw] = true
+			for _, g := range q.Gets {
+				used[g.Sw] = true
+			}
+			for _, sw := range q.Sws {
+				used[sw] = true
+			}
+		}
+		reqs = append([]request(nil), reqs...)
+		for sw := int64(1); sw <= 2; sw++ {
+			if used[sw] {
+				reqs = append(reqs, request{Op: "IsSwampExist", Sw: sw}, request{Op: "GetAll", Sw: sw})
+			}
+		}
+	}
 	for _, q := range reqs {
 		ch := make(chan string, 1)
 		go func(q request) {
@@ -1096,6 +1145,17 @@ func runHistory(s *rig.Server, idx int, persistent bool, reqs []request, watchdo
 		}
 		hist = append(hist, "("+q.coq()+", "+resp+")")
 		human = append(human, q.coq()+" => "+resp)
+		if persistent && !out.hang && flushPct > 0 && frng.Intn(100) < flushPct {
+			done := make(chan struct{})
+			go func() { defer close(done); flushSwamp(s, n.swamp(1)); flushSwamp(s, n.swamp(2)) }()
+			select {
+			case <-done:
+				human = append(human, "  (flush)")
+				out.ops["(flush)"]++
+			case <-time.After(watchdog):
+				human = append(human, "  (flush did not return)")
+			}
+		}
 		if out.hang {
 			hungMu.Lock()
 			hung++
@@ -1140,7 +1200,9 @@ func runHistory(s *rig.Server, idx int, persistent bool, reqs []request, watchdo
 			}
 		}
 	}
-	out.term = "(CC " + common.List(hist) + " " + common.List(fin) + ")"
+	// the final contents are already part of the history (closing probes above); [fin] stays in the
+	// replay description only
+	out.term = "(CC " + common.List(hist) + " [])"
 	out.descr = map[string]interface{}{"history": human, "persistent": persistent, "final": fin}
 	out.nontrivial = writes >= 2
 	return out
@@ -1169,9 +1231,26 @@ func smallAlphabet() []request {
 	}
 }
 
+// a second alphabet, over two keys of one swamp, aimed at the ways a swamp becomes empty (and at what
+// an earlier refused or detached write leaves behind when it does)
+func twoKeyAlphabet() []request {
+	i64 := func(k, z int64) kv { return kv{Key: k, Val: setval{Kind: 1, Ty: tI64, Z: z}} }
+	return []request{
+		{Op: "Set", Sw: 1, Create: true, Over: true, KVs: []kv{i64(1, 1)}},
+		{Op: "Set", Sw: 1, Create: true, Over: true, KVs: []kv{i64(2, 1), i64(2, 2)}}, // the same key twice in one request
+		{Op: "Delete", Sw: 1, Keys: []int64{1}},
+		{Op: "Delete", Sw: 1, Keys: []int64{2, 1, 2}},
+		{Op: "Inc", Sw: 1, K: 2, Ty: tI64, By: 1, ByU64: 1, Cond: true, CondOp: 0, CondV: 5, CondU: 5}, // refused on an absent key
+		{Op: "Inc", Sw: 1, K: 2, Ty: tI32, By: 1, ByU64: 1},
+		{Op: "ShiftByKeys", Sw: 1, Keys: []int64{1, 2}},
+		{Op: "SlDel", Sw: 1, Pairs: []pair{{Key: 1, Vals: []uint32{1}}, {Key: 2, Vals: []uint32{1}}}},
+	}
+}
+
 func main() {
 	args := common.ParseArgs()
 	run := common.NewRun(args, "C06", "HV.Swamp.ApiCheck")
+	run.Shard = 1000 // the cases are small; the fixed cost of a shard (loading the libraries) dominates
 	run.Meta.Rule = "a history is non-trivial when at least two of its requests changed stored data (NEW/UPDATED/DELETED status or an increment answer)"
 	rig.Quiet()
 	root, _ := os.MkdirTemp("", "c06")
@@ -1207,6 +1286,10 @@ func main() {
 		}
 	}
 	rec(nil, exhLen)
+	alpha2 := twoKeyAlphabet()
+	alpha, alpha2 = alpha2, alpha
+	rec(nil, exhLen+1) // the two-key alphabet is small: one request longer
+	alpha, alpha2 = alpha2, alpha
 	for i, sq := range seqs {
 		jobs = append(jobs, job{reqs: sq, persistent: i%2 == 1, kind: "exhaustive"})
 	}
@@ -1281,7 +1364,21 @@ func main() {
 	}
 	res := make([]outcomeT, len(jobs))
 	common.Parallel(len(jobs), 16, func(i int) {
-		res[i] = runHistory(s, i, jobs[i].persistent, jobs[i].reqs, watchdog)
+		// persistent histories: every other one with forced flushes between the requests (after every
+		// request, or after about a third of them)
+		flushPct := 0
+		if jobs[i].persistent {
+			switch i % 6 {
+			case 1:
+				flushPct = 100
+			case 3:
+				flushPct = 35
+			}
+			if jobs[i].kind != "exhaustive" && flushPct == 0 && i%4 == 0 {
+				flushPct = 15
+			}
+		}
+		res[i] = runHistory(s, i, jobs[i].persistent, flushPct, jobs[i].reqs, watchdog)
 	})
 	for i, o := range res {
 		o.descr["kind"] = jobs[i].kind
